@@ -26,20 +26,25 @@ RootEdits ==
     \cup {[op |-> "DeleteGlobalRule", name |-> n] : n \in {"g1", "g3"}}
     \cup {[op |-> o, stages |-> st, name |-> n] : o \in {"AddHook", "RemoveHook"}, st \in {<<"pre">>, <<"push">>, <<"pre", "push">>, <<"push", "pre">>}, n \in {"h1", "h2"}}
 
+MultiEdits ==
+    {[op |-> o] : o \in {"EnableController", "DisableController"}}
+    \cup {[op |-> o, name |-> n] : o \in {"AddControllerRepository", "AddNetworkRepository"}, n \in {"r1", "r2"}}
+    \cup {[op |-> "AddRootPrincipal", p |-> "p2"], [op |-> "UpdateRootThreshold", thr |-> 2]}
+
 Init == f = NewFile /\ r = NewRoot("p1") /\ hist = <<>>
 Next == /\ Len(hist) < MaxLen
         /\ IF Which = "file"
            THEN \E e \in FileEdits : f' = ApplyF(f, e, FALSE, Dev).m /\ r' = r /\ hist' = Append(hist, e)
-           ELSE \E e \in RootEdits : r' = ApplyR(r, e, Dev).m /\ f' = f /\ hist' = Append(hist, e)
+           ELSE \E e \in (IF Which = "multi" THEN MultiEdits ELSE RootEdits) : r' = ApplyR(r, e, Dev).m /\ f' = f /\ hist' = Append(hist, e)
 Spec == Init /\ [][Next]_<<f, r, hist>>
 
 View == <<f, r>>
 WF == WFFile(f) /\ WFRoot(r)
 \* a refused edit leaves what queries can observe unchanged
 RefusedUnchanged == /\ \A e \in FileEdits : ~ApplyF(f, e, FALSE, Dev).ok => ViewF(ApplyF(f, e, FALSE, Dev).m) = ViewF(f)
-                    /\ \A e \in RootEdits : ~ApplyR(r, e, Dev).ok => ViewR(ApplyR(r, e, Dev).m) = ViewR(r)
+                    /\ \A e \in RootEdits \cup MultiEdits : ~ApplyR(r, e, Dev).ok => ViewR(ApplyR(r, e, Dev).m) = ViewR(r)
 
-Weight == Len(hist) * 7 + Len(f.rules) * 5 + Cardinality(f.pr) * 3 + Cardinality(r.root.ids) * 11 + Len(r.globals) * 13 + Len(r.hooks.pre) + Len(r.hooks.push) * 2
+Weight == Len(r.multi.cr) * 17 + Len(r.multi.nr) * 19 + (IF r.multi.ctl THEN 23 ELSE 0) + Len(hist) * 7 + Len(f.rules) * 5 + Cardinality(f.pr) * 3 + Cardinality(r.root.ids) * 11 + Len(r.globals) * 13 + Len(r.hooks.pre) + Len(r.hooks.push) * 2
 Emit == IF hist # <<>> /\ Weight % EmitMod = EmitRes
         THEN PrintT(ToJson([t |-> "SCN", which |-> Which, edits |-> hist])) ELSE TRUE
 =============================================================================
